@@ -13,6 +13,10 @@ Stages
      specification Krylov.true_res recomputes ||f - A x|| / ||f|| (preconditioned for left side)
      with the same pseudo-root and must equal the returned number exactly; iters <= maxiter (+L-1).
   3. double build on larger well-conditioned systems: long-double recomputation (tested, not proved).
+  4. binary64 correspondence: the same extracted models evaluated at a binary64 Scalar instance (OCaml floats,
+     ops f.solve) vs the double build of the implementation (d.solve), bit for bit, all eight solvers, n up to 64,
+     up to 300 iterations / dozens of restarts (what exact rationals cannot reach: LGMRES ring buffer wrap-around,
+     BiCGStab(L) accurate updates, IDR(s) over many dimension-reduction steps); dyadic data only.
 """
 import random
 from fractions import Fraction as F
@@ -136,8 +140,23 @@ def double_cases(tier, seed):
     return out
 
 
+def float_cases(tier, seed):
+    """binary64 tie: written with op `solve`, run as d.solve (implementation) / f.solve (model)"""
+    r = random.Random(seed * 1000 + 4)
+    out = []
+    nsys = 10 if tier == "quick" else 40
+    for solver in kc.SOLVERS:
+        for si in range(nsys * (2 if solver in ("lgmres", "bicgstabl", "idrs") else 1)):
+            n = r.choice([8, 16, 36, 48, 64])
+            S = kc.dyadic_sys(r, n, solver)
+            prm = kc.dyadic_prm(r, maxiter=r.choice([5, 20, 60, 300]))
+            if solver == "lgmres": prm["M"] = r.choice([1, 2, 3, 4])        # many restarts: the ring of augmentation vectors wraps
+            out.append(kc.solve_line("g%d" % len(out), solver, kc.side_for(r, solver), S, op="f64", **prm))
+    return out
+
+
 def cases(tier, seed):
-    return exact_cases(tier, seed) + shadow_cases(tier, seed) + probe_cases(tier, seed) + double_cases(tier, seed)
+    return float_cases(tier, seed) + exact_cases(tier, seed) + shadow_cases(tier, seed) + probe_cases(tier, seed) + double_cases(tier, seed)
 
 
 def run(ctx, cases_override=None):
@@ -193,6 +212,25 @@ def run(ctx, cases_override=None):
     for f in of:
         f["impl"] = (impl.get(f["case"].split(" ", 1)[0]) or "")[:2000] if f.get("case") else None
     fails += of
+
+    # 4. binary64 correspondence
+    f64 = [l.replace(" f64 ", " solve ", 1) for l in lines if l.split(" ", 2)[1] == "f64"]
+    if f64:
+        il, ml = kc.float_pair(ctx, f64)
+        fi = ctx["run_driver"](ctx["cpp"]["krylov"], il, timeout=TMO)
+        fm = ctx["run_driver"](ctx["model"], ml, timeout=TMO)
+        account(ctx, il, fi)
+        iters = 0
+        for l, li in zip(f64, il):
+            cid, op, solver = l.split(" ", 3)[:3]
+            a, b = fi.get(cid), fm.get(cid)
+            pr = kc.parse_result(a)
+            if pr: iters += pr[0]
+            if a != b or a is None:
+                ctx["stats"]["mismatches"] += 1
+                fails.append(dict(kind="counterexample", case=l.replace(" solve ", " f64 ", 1), impl=(a or "")[:3000], model=(b or "")[:3000], op="f64:" + solver, size=len(l),
+                                  theorem="binary64 correspondence: double build of %s (d.solve) vs the extracted model at the binary64 Scalar instance (f.solve), bit for bit" % solver))
+        ctx["stats"]["samples"].append(dict(binary64_cases=len(f64), binary64_iterations_total=iters))
 
     # 3. double build, long double recomputation
     if dbl:
